@@ -43,7 +43,7 @@ type C06Case struct {
 var c06Keys = []string{"ka", "kb", "kc"}
 
 func c06Rules() string {
-	s := "rule \"r_who\" \"d\" salience 10\nbegin\n  S(@name)\n  if who.Kind == 0 {\n    return who.Id\n  }\nend\n"
+	s := "rule \"r_who\" \"d\" salience 10\nbegin\n  S(@name)\n  lit(1, 2, 3)\n  if who.Kind == 0 {\n    return who.Id\n  }\nend\n"
 	for i, k := range c06Keys {
 		s += fmt.Sprintf("rule \"r_%s\" \"d\" salience %d\nbegin\n  same(%s.Id, who.Id)\n  gatei(who.Id)\n  same(%s.Id, who.Id)\n  %s.Out = who.Id\n  if who.Kind == 0 {\n    return %s.Id\n  }\nend\n", k, 5-i, k, k, k, k)
 	}
